@@ -573,7 +573,7 @@ Proof.
     destruct (negb okr).
     + split. * rewrite fire_nd. exact W. * intros x. rewrite total_fire, <- (T1 x). lia.
     + destruct (a <=? applied (nd s1)).
-      * split. -- exact W. -- intros x. change (total x (raise EXC_ASSERT s1)) with (total x s1). rewrite <- (T1 x). lia.
+      * split. -- rewrite fire_nd. exact W. -- intros x. rewrite total_fire, <- (T1 x). lia.
       * split.
         -- cbn. apply asorted_aset; auto.
         -- intros x. unfold total, node_ids. cbn [upd nd outs]. cbn.
